@@ -13,7 +13,7 @@ RULE = ('(a) batches of generated DFXP documents (1-4 divs, at most one without 
         'seeds; (b) API-built sets with 1-4 languages whose cues are sorted and non-overlapping per language and '
         'interleave / coincide / are disjoint across languages, written by DFXPWriter (force=), SAMIWriter and '
         'WebVTTWriter (lang=), outputs parsed independently and read back; (c) reader lang= for SRT / WebVTT / '
-        'MicroDVD. Every line carries a unique tag naming its language. Non-trivial: >= 2 languages.')
+        'MicroDVD. Every line carries a unique tag naming its language. A third of the API sets share style classes across languages. Non-trivial: >= 2 languages.')
 ANCHORS = ['pycaption.dfxp.base:DFXPReader.read', 'pycaption.dfxp.base:DFXPWriter.write',
            'pycaption.sami:SAMIParser._find_lang', 'pycaption.sami:SAMIParser.handle_starttag',
            'pycaption.sami:SAMIReader.read', 'pycaption.sami:SAMIReader._translate_lang',
